@@ -50,6 +50,7 @@ type FS struct {
 	Journal  []JEntry
 	OnMutate func(e JEntry)
 	tmpSeq   int
+	goOpens  int // descriptor-opening calls of Go code so far (NoFDFrom)
 	goWrites int // Go-level data writes below task temp directories so far (DiskFullAt)
 }
 
@@ -493,6 +494,17 @@ func base(p string) string {
 
 // --- scheduled entry points for Go code (os / ioutil shims) ---------------------
 
+// fdFault: called by every entry point that needs a file descriptor, before it
+// does anything else.
+func (f *FS) fdFault(op, path string) error {
+	f.goOpens++
+	if c := f.s.Cfg; c.NoFDFrom > 0 && f.goOpens >= c.NoFDFrom && f.goOpens < c.NoFDFrom+c.NoFDLen {
+		f.s.Fault("fd-exhaustion")
+		return perr(op, path, syscall.EMFILE)
+	}
+	return nil
+}
+
 func (f *FS) GoStat(path string) (iofs.FileInfo, error) {
 	f.s.Pre("stat", 0, path)
 	n, err := f.Lookup(f.Cwd, path)
@@ -529,6 +541,9 @@ func (f *FS) GoRename(o, n string) error {
 
 func (f *FS) GoReadFile(path string) ([]byte, error) {
 	f.s.Pre("readfile", 0, path)
+	if err := f.fdFault("open", path); err != nil {
+		return nil, err
+	}
 	n, err := f.Lookup(f.Cwd, path)
 	if err != nil {
 		if pe, ok := err.(*iofs.PathError); ok {
@@ -549,6 +564,9 @@ func (f *FS) GoReadFile(path string) ([]byte, error) {
 // two leaves an empty file, as with the real ioutil.WriteFile).
 func (f *FS) GoWriteFile(path string, data []byte) error {
 	f.s.Pre("writefile-open", 0, path)
+	if err := f.fdFault("open", path); err != nil {
+		return err
+	}
 	n, abs, err := f.Create(f.Cwd, path)
 	if err != nil {
 		return err
@@ -568,6 +586,9 @@ func (f *FS) GoWriteFile(path string, data []byte) error {
 
 func (f *FS) GoReadDir(path string) ([]iofs.FileInfo, error) {
 	f.s.Pre("readdir", 0, path)
+	if err := f.fdFault("open", path); err != nil {
+		return nil, err
+	}
 	names, err := f.ReadDirNames(f.Cwd, path)
 	if err != nil {
 		return nil, err
@@ -610,6 +631,9 @@ type File struct {
 
 func (f *FS) GoOpen(path string) (*File, error) {
 	f.s.Pre("open", 0, path)
+	if err := f.fdFault("open", path); err != nil {
+		return nil, err
+	}
 	n, err := f.Lookup(f.Cwd, path)
 	if err != nil {
 		if pe, ok := err.(*iofs.PathError); ok {
@@ -625,6 +649,9 @@ func (f *FS) GoOpen(path string) (*File, error) {
 
 func (f *FS) GoCreate(path string) (*File, error) {
 	f.s.Pre("create", 0, path)
+	if err := f.fdFault("open", path); err != nil {
+		return nil, err
+	}
 	n, abs, err := f.Create(f.Cwd, path)
 	if err != nil {
 		return nil, err
@@ -749,6 +776,9 @@ func (f *FS) GoOpenFile(path string, flag int) (*File, error) {
 		return f.GoOpen(path)
 	}
 	f.s.Pre("openfile", flag, path)
+	if err := f.fdFault("open", path); err != nil {
+		return nil, err
+	}
 	n, err := f.Lookup(f.Cwd, path)
 	if err != nil {
 		if flag&O_CREATE == 0 {
